@@ -395,6 +395,42 @@ def connect : LoginEv → Bool × Bool
   | .connRefused => (true, false)    -- OSError from create_connection
   | .peerClosed => (true, false)     -- EndOfQueue → ConnectionRefusedError("Connection closed by peer.")
 
+/-! ### `soup.connect` and a peer that ends the session right behind its acceptance
+
+Steps of the executor's loop thread (each atomic): `loginReturns` — `connect_async()` returns the logged-in session;
+`install` — the blocking wrapper is constructed and installs its close callback (`on_close_coro`: stop the executor, set
+`closed_event`); `loginAndInstall` — both in ONE step (`soup.connect` since the fix: the wrapper is built inside the
+coroutine that awaited the login, so nothing can run in between); `sessionCloses` — the peer's disconnect is processed:
+`AsyncSession.close()` runs to its end and awaits the callback it finds installed at that moment.
+A later `close()` / `logout()` of the facade waits for `closed_event`: it returns iff the event gets set. -/
+inductive ConnEv where
+  | loginReturns | install | loginAndInstall | sessionCloses
+  deriving DecidableEq, Repr, Inhabited
+
+structure ConnSt where
+  loggedIn : Bool := false
+  installed : Bool := false
+  sessionClosed : Bool := false    -- `AsyncSession.close()` has run (its one and only time)
+  eventSet : Bool := false         -- `closed_event` (set by the installed callback when the close runs)
+  deriving DecidableEq, Repr, Inhabited
+
+def connStep (s : ConnSt) : ConnEv → ConnSt
+  | .loginReturns => { s with loggedIn := true }
+  | .install => if s.loggedIn then { s with installed := true } else s
+  | .loginAndInstall => { s with loggedIn := true, installed := true }
+  | .sessionCloses =>
+      -- before the login returned this is the `peerClosed` outcome of `connect` (login raises): not a state of this machine
+      if s.loggedIn && !s.sessionClosed then { s with sessionClosed := true, eventSet := s.installed } else s
+
+def connRun (evs : List ConnEv) : ConnSt := evs.foldl connStep {}
+
+/-- the facade's `close()` once the wrapper exists: if the session has not closed yet, `close()` itself initiates the close,
+which then finds the callback; if it has, `close()` can only wait for the event -/
+def closeReturns (s : ConnSt) : Bool := s.installed && (s.eventSet || !s.sessionClosed)
+
+/-- a schedule of the repaired `connect`: login and installation are one step -/
+def fixedSchedule (evs : List ConnEv) : Bool := evs.all fun e => e == .loginAndInstall || e == .sessionCloses
+
 /-! ### deterministic pseudo-random walk (for the driver: schedules are generated from the model) -/
 def lcg (x : Nat) : Nat := (x * 6364136223846793005 + 1442695040888963407) % 18446744073709551616
 
